@@ -24,7 +24,7 @@ ASSUMPTIONS = [
     'containers: lists, tuples, nested lists and ndarrays of symbolic numbers, and lists of bin / hex strings rendered from symbolic codes',
     'configuration strings: a valid word with one or two characters replaced by symbolic lower-case letters; "accepted => it is one of the valid words"',
 ]
-ROUTES = ('ctor_like', 'ctor_like_val', 'template', 'deepcopy', 'like', 'fxp_like', 'from_fxp', 'resize_copy', 'add', 'mul_const', 'neg', 'lshift',
+ROUTES = ('ctor_config', 'ctor_like', 'ctor_like_val', 'template', 'deepcopy', 'like', 'fxp_like', 'from_fxp', 'resize_copy', 'add', 'mul_const', 'neg', 'lshift',
           'rshift_keep', 'invert', 'and', 'np_sum', 'np_cumsum', 'astype_roundtrip')
 MUTATIONS = ('write', 'write_flags', 'setitem', 'config', 'reset', 'resize')
 FIELDS = {'overflow': ['saturate', 'wrap'], 'rounding': ['around', 'floor', 'ceil', 'fix', 'trunc'], 'shifting': ['expand', 'trunc', 'keep'],
@@ -117,6 +117,8 @@ def observe(x):
 
 def derive(F, route, A, other):
     s, n, f = bool(A.signed), A.n_word, A.n_frac
+    if route == 'ctor_config':
+        return F.Fxp(A(), s, n, f, config=A.config)          # the configuration object of A handed to the constructor
     if route == 'ctor_like':
         return F.Fxp(None, like=A)
     if route == 'ctor_like_val':
